@@ -57,6 +57,11 @@ CHECKS = {
    technique="stateless exhaustive exploration of the real relations lexer/parser over the full input trie (21 character classes to length N, 20 multi-character tokens to T tokens), loop-tick budget for non-termination",
    text="Every string over the 21 relation character classes up to length 5 (thorough 6) and every sequence of 20 relation tokens up to 4 (thorough 6) tokens is parsed with substvars off and on, by the strict reader and by the single-entry/single-relation readers; printed text must equal the input, strict must succeed exactly when the tolerant reader reports no error, and a parser loop that exceeds the quadratic tick budget is reported as a hang instead of exhausting memory.",
    note="Identifier characters and 'other' characters are represented by one class member each; strings longer than the bound are not explored."),
+ "C14": dict(
+   category="exploration", design_ref="DESIGN.md §3 C14",
+   technique="exhaustive enumeration of the full product of lossy relation values (720 single relations; all fields of <= 2-3 entries x <= 2 alternatives over a 12-value subset) through print, both readers and the lossy<->lossless conversions",
+   text="Every lossy Relation over 2 names x qualifier x 3 version shapes (incl. epoch) x 6 architecture lists (absent, empty, plain, negated) x 4 profile-group shapes, and every Relations value of <= 2 (thorough 3) entries x <= 2 alternatives over 12 representative relations, is printed; the lossy reader must return an equal value, the lossless reader the same structure, lossless::Relation::from(v) must print the same text, lossy::Relation::from(lossless::Relation::from(v)) and Entry<->Vec<Relation> must be identities.",
+   note="Component strings outside the menus are not explored."),
 }
 
 PENDING_REASON = "check not built yet in this round (work in progress; DESIGN.md §3 describes the intended bounded exhaustive exploration)"
